@@ -111,7 +111,12 @@ def generic_worker(task: Tuple[Any, ...]) -> Stats:
                 continue
             for sch in schedules:
                 try:
-                    computed = C.compute_tax(cfg, C.engine(sch), input_data)
+                    eng = C.engine(sch)
+                    if opts.get("prelude"):
+                        # another asset of the same run is computed first with the SAME engine and method objects (as rp2_main does);
+                        # its rows carry the same spreadsheet row numbers
+                        C.compute_tax(cfg, eng, C.build_input(cfg, opts["prelude"], "B2"))
+                    computed = C.compute_tax(cfg, eng, input_data)
                     out = C.Outcome(computed, None, input_data)
                 except Exception as exc:  # pylint: disable=broad-except
                     out = C.Outcome(None, exc, input_data)
@@ -144,7 +149,12 @@ def replay_compute(modname: str, path: str) -> int:
         st = Stats()
         try:
             input_data = C.build_input(cfg, specs)
-            computed = C.compute_tax(cfg, C.engine(schedule), input_data)
+            eng = C.engine(schedule)
+            if "another asset computed first" in payload.get("deviation", "") and hasattr(mod, "PRELUDE"):
+                from rp2verif import history as H
+
+                C.compute_tax(cfg, eng, C.build_input(cfg, H.materialize(mod.PRELUDE), "B2"))
+            computed = C.compute_tax(cfg, eng, input_data)
             out = C.Outcome(computed, None, input_data)
         except Exception as exc:  # pylint: disable=broad-except
             out = C.Outcome(None, exc, None)
